@@ -13,7 +13,8 @@ From Coq Require Import Reals QArith ZArith List Bool.
 From Bignums Require Import BigZ.
 From Coquelicot Require Import Coquelicot.
 From SpdVerif Require Import Base.NumOps Gen.Integration Model.Quadrature.
-From SpdVerif Require Import Proofs.C12_base Proofs.C12_simpson Proofs.C12_rule Proofs.C12_simpson2d Proofs.C12_adaptive Proofs.C12_cert Proofs.C12_expi.
+From SpdVerif Require Import Proofs.C12_base Proofs.C12_simpson Proofs.C12_rule Proofs.C12_simpson2d Proofs.C12_adaptive Proofs.C12_cert Proofs.C12_expi Proofs.C12_alias Proofs.C12_gl_expi Proofs.C12_gl_cert Proofs.C12_expi2d Proofs.C12_float.
+From SpdVerif Require Import Model.C12_FloatOps.
 Import ListNotations.
 Local Open Scope R_scope.
 
@@ -64,6 +65,28 @@ Theorem C12_expi_integral : forall k a b : R, k <> 0 ->
   is_RInt (fun x => snd (expi k x)) a b (snd (expi_int k a b)).
 Proof. exact expi_int_is_RInt. Qed.
 
+(* ---- rounding analysis of the translated `simpson` (its sequential evaluation order) in binary64, absent overflow and
+   underflow: [Fops rnd64] instantiates the SAME generated code with every operation followed by round-to-nearest-even at
+   precision 53 (Flocq).  With n the normalised division count, x_i the rounded nodes the code evaluates the integrand at,
+   each component of the result is within ((1+u)^(n+6) - 1) |b-a|/(3n) sum_i w_i |f(x_i)| of the exact rule value on those
+   samples; (1+u)^k - 1 <= k u/(1 - k u), and <= 1.5e-14 on the whole sequential branch (n < 128). *)
+Theorem C12_simpson_binary64 : forall (func : R -> C) (a b : R) divs, simpson_accepts divs = true ->
+  let n := simpson_norm divs in
+  let idx := zrange_incl 0 n in
+  let s := (b - a) / (3 * IZR n) in
+  let x := node_hat rnd64 a b n in
+  Rabs (fst (simpson (Fops rnd64) func a b divs) - s * rsum (map (fun i => wR i n * fst (func (x i))) idx))
+    <= G u64 (Z.to_nat n + 6) * (Rabs s * rsum (map (fun i => wR i n * Rabs (fst (func (x i)))) idx)) /\
+  Rabs (snd (simpson (Fops rnd64) func a b divs) - s * rsum (map (fun i => wR i n * snd (func (x i))) idx))
+    <= G u64 (Z.to_nat n + 6) * (Rabs s * rsum (map (fun i => wR i n * Rabs (snd (func (x i)))) idx)).
+Proof. exact simpson_binary64. Qed.
+
+Theorem C12_float_constants :
+  u64 = / 9007199254740992 /\
+  (forall k : nat, INR k * u64 < 1 -> G u64 k <= INR k * u64 / (1 - INR k * u64)) /\
+  (forall n : Z, (n < 128)%Z -> G u64 (Z.to_nat n + 6) <= 1.5e-14).
+Proof. exact (conj u64_value (conj G64_gamma G64_sequential)). Qed.
+
 (* ---- composite Simpson, 2-D *)
 Theorem C12_simpson2d_is_tensor : forall (f : R -> R -> C) (ax bx ay by_ : R) divs, (0 < simpson2d_norm divs)%Z ->
   simpson2d Rops f ax bx ay by_ divs =
@@ -87,6 +110,18 @@ Theorem C12_simpson2d_product_of_1d : forall (cp cq : list C) (ax bx ay by_ : R)
   simpson2d Rops (fun x y => Cmult (cpeval Rops cp x) (cpeval Rops cq y)) ax bx ay by_ divs =
   Cmult (simpson Rops (cpeval Rops cp) ax bx divs) (simpson Rops (cpeval Rops cq) ay by_ divs).
 Proof. exact simpson_2d_product_of_1d. Qed.
+
+(* separable oscillatory integrand amp exp(i(kx + ly)): the 1-D textbook bounds combine *)
+Theorem C12_simpson2d_expi_bound : forall divs (ax bx ay by_ k l : R) (amp : C),
+  simpson2d_accepts divs = true -> k <> 0 -> l <> 0 ->
+  let n := simpson2d_norm divs in
+  let Bx := Cmod amp * simpson_expi_B k ax bx n in
+  let By := simpson_expi_B l ay by_ n in
+  let Ix := Cmult amp (expi_int k ax bx) in
+  let Iy := expi_int l ay by_ in
+  Cmod (Cminus (simpson2d Rops (fun x y => Cmult (Cmult amp (expi k x)) (expi l y)) ax bx ay by_ divs) (Cmult Ix Iy))
+    <= Bx * (Cmod Iy + By) + Cmod Ix * By.
+Proof. exact simpson2d_expi_bound. Qed.
 
 Theorem C12_simpson2d_reverse : forall (f : R -> R -> C) (ax bx ay by_ : R) divs, simpson2d_accepts divs = true ->
   simpson2d Rops f bx ax ay by_ divs = Copp (simpson2d Rops f ax bx ay by_ divs) /\
@@ -162,23 +197,49 @@ Theorem C12_certified_rule_exact : forall (E F : Z) (d : nat) (en ed : Z) (xs ws
     <= IZR en / IZR ed * Rabs (tr_u a b) * scale_cmod cs (tr_M a b).
 Proof. exact certified_rule_exact. Qed.
 
-(* ---- the gauss-quad adapter of Integrator::GaussLegendre (hand model, tied by rule extraction), for ANY table *)
+(* ---- the external-integrator arms of Integrator::integrate / integrate2d are TRANSLATED with the crates as oracles.
+   Gauss-Legendre: for every table of fixed linear rules ([rule_oracle table] applies table n with gauss-quad's affine
+   transfer) the generated adapters — two real passes, re/im recombination, degree.max(2), nesting order — are the rule and
+   the tensor rule *)
+Theorem C12_gl_adapter_is_rule : forall (table : Z -> rule Rops) (func : R -> C) (a b : R) degree,
+  integrate_GaussLegendre Rops (rule_oracle Rops table) func a b degree =
+  apply_rule Rops (gq_transfer Rops (table (gl_points degree)) a b) func.
+Proof. exact gl_adapter_is_rule. Qed.
+
+Theorem C12_gl_adapter_2d_is_rule : forall (table : Z -> rule Rops) (func : R -> R -> C) (a b c d : R) degree,
+  integrate2d_GaussLegendre Rops (rule_oracle Rops table) func a b c d degree =
+  apply_rule2 Rops (tensor Rops (gq_transfer Rops (table (gl_points degree)) a b) (gq_transfer Rops (table (gl_points degree)) c d)) func.
+Proof. exact gl_adapter_2d_is_rule. Qed.
+
 Theorem C12_gl_adapter_exact : forall (table : Z -> rule Rops) (degree : Z) (d : nat) (eps : R),
   (forall k, (k <= d)%nat -> Rabs (moment (table (gl_points degree)) k - leg_moment k) <= eps) ->
   forall (a b : R) (cs : list C), (length cs <= S d)%nat ->
-  Cmod (Cminus (integrate_GaussLegendre Rops table (cpeval Rops cs) a b degree) (cpint Rops cs a b))
+  Cmod (Cminus (integrate_GaussLegendre Rops (rule_oracle Rops table) (cpeval Rops cs) a b degree) (cpint Rops cs a b))
     <= eps * Rabs (tr_u a b) * scale_cmod cs (tr_M a b).
 Proof. exact gl_adapter_exact. Qed.
 
 Theorem C12_gl_adapter_linear : forall (table : Z -> rule Rops) (degree : Z) (alpha beta : C) (f g : R -> C) (a b : R),
-  integrate_GaussLegendre Rops table (fun x => Cplus (Cmult alpha (f x)) (Cmult beta (g x))) a b degree =
-  Cplus (Cmult alpha (integrate_GaussLegendre Rops table f a b degree)) (Cmult beta (integrate_GaussLegendre Rops table g a b degree)).
+  integrate_GaussLegendre Rops (rule_oracle Rops table) (fun x => Cplus (Cmult alpha (f x)) (Cmult beta (g x))) a b degree =
+  Cplus (Cmult alpha (integrate_GaussLegendre Rops (rule_oracle Rops table) f a b degree))
+        (Cmult beta (integrate_GaussLegendre Rops (rule_oracle Rops table) g a b degree)).
 Proof. exact gl_adapter_linear. Qed.
 
 Theorem C12_gl_adapter_2d_separable : forall (table : Z -> rule Rops) (degree : Z) (p q : R -> C) (a b c d : R),
-  integrate2d_GaussLegendre Rops table (fun x y => Cmult (p x) (q y)) a b c d degree =
-  Cmult (integrate_GaussLegendre Rops table p a b degree) (integrate_GaussLegendre Rops table q c d degree).
+  integrate2d_GaussLegendre Rops (rule_oracle Rops table) (fun x y => Cmult (p x) (q y)) a b c d degree =
+  Cmult (integrate_GaussLegendre Rops (rule_oracle Rops table) p a b degree)
+        (integrate_GaussLegendre Rops (rule_oracle Rops table) q c d degree).
 Proof. exact gl_adapter_2d_separable. Qed.
+
+(* Clenshaw-Curtis and Gauss-Kronrod: what the generated adapters hand to the external integrators (any oracle) *)
+Theorem C12_cc_gk_adapters : forall (cc : (R -> R) -> R -> R -> R -> R) (gk : R -> nat -> (C -> C) -> C -> C -> C)
+    (f : R -> C) (g : R -> R -> C) (a b c d tol : R) iters,
+  integrate_ClenshawCurtis Rops cc f a b tol = (cc (fun x => fst (f x)) a b tol, cc (fun x => snd (f x)) a b tol) /\
+  integrate2d_ClenshawCurtis Rops cc g a b c d tol =
+    (cc (fun x => cc (fun y => fst (g x y)) c d tol) a b tol, cc (fun x => cc (fun y => snd (g x y)) c d tol) a b tol) /\
+  integrate_GaussKonrod Rops gk f a b tol iters = gk tol iters (fun z => f (fst z)) (a, 0) (b, 0) /\
+  integrate2d_GaussKonrod Rops gk g a b c d tol iters =
+    gk tol iters (fun z => gk tol iters (fun w => g (fst z) (fst w)) (c, 0) (d, 0)) (a, 0) (b, 0).
+Proof. exact cc_gk_adapters. Qed.
 
 (* 2-D adapter on a product of complex polynomials of degree <= d, from the two 1-D certificate bounds *)
 Theorem C12_gl_adapter_2d_exact : forall (table : Z -> rule Rops) (degree : Z) (d : nat) (eps : R),
@@ -186,10 +247,42 @@ Theorem C12_gl_adapter_2d_exact : forall (table : Z -> rule Rops) (degree : Z) (
   forall (a b c e : R) (cp cq : list C), (length cp <= S d)%nat -> (length cq <= S d)%nat ->
   let Bp := eps * Rabs (tr_u a b) * scale_cmod cp (tr_M a b) in
   let Bq := eps * Rabs (tr_u c e) * scale_cmod cq (tr_M c e) in
-  Cmod (Cminus (integrate2d_GaussLegendre Rops table (fun x y => Cmult (cpeval Rops cp x) (cpeval Rops cq y)) a b c e degree)
+  Cmod (Cminus (integrate2d_GaussLegendre Rops (rule_oracle Rops table) (fun x y => Cmult (cpeval Rops cp x) (cpeval Rops cq y)) a b c e degree)
                (Cmult (cpint Rops cp a b) (cpint Rops cq c e)))
     <= Bp * (Cmod (cpint Rops cq c e) + Bq) + Cmod (cpint Rops cp a b) * Bq.
 Proof. exact gl_adapter_2d_exact. Qed.
+
+(* ---- smooth oscillatory integrands for a certified rule (Gauss-Legendre given the run's certificate).
+   Taylor remainder of exp(it), complex modulus: *)
+Theorem C12_taylor_remainder : forall (d : nat) (t : R), Cmod (ER d t, EI d t) <= Rabs t ^ S d / INR (fact (S d)).
+Proof. exact taylor_remainder. Qed.
+
+(* moments within eps to degree d, nodes in [-1,1]:  error on exp(ikx) over [-1,1] <= eps sum_{m<=d} |k|^m/m! + (W+2) |k|^(d+1)/(d+1)! *)
+Theorem C12_certified_rule_expi : forall (r : rule Rops) (d : nat) (eps k : R),
+  (forall m, (m <= d)%nat -> Rabs (moment r m - leg_moment m) <= eps) -> nodes_in_unit r -> k <> 0 ->
+  Cmod (Cminus (apply_rule Rops r (expi k)) (expi_int k (-1) 1))
+    <= eps * expsum (Rabs k) d + (abs_weight r + 2) * (Rabs k ^ S d / INR (fact (S d))).
+Proof. exact certified_rule_expi. Qed.
+
+(* ... and after gauss-quad's affine transfer, with a complex amplitude, on every interval *)
+Theorem C12_certified_rule_expi_transfer : forall (r : rule Rops) (d : nat) (eps k : R) (a b : R) (amp : C),
+  (forall m, (m <= d)%nat -> Rabs (moment r m - leg_moment m) <= eps) -> nodes_in_unit r -> k <> 0 -> a <> b ->
+  let ku := k * tr_u a b in
+  Cmod (Cminus (apply_rule Rops (gq_transfer Rops r a b) (fun x => Cmult amp (expi k x))) (Cmult amp (expi_int k a b)))
+    <= Cmod amp * Rabs (tr_u a b) * (eps * expsum (Rabs ku) d + (abs_weight r + 2) * (Rabs ku ^ S d / INR (fact (S d)))).
+Proof. exact certified_rule_expi_transfer. Qed.
+
+(* the executable form: moment certificate + range check (nodes in [-1,1], weights >= 0) of an extracted dyadic rule,
+   both closed by vm_compute in the generated per-rule files of every run *)
+Theorem C12_certified_rule_expi_exact : forall (E F : Z) (d : nat) (en ed : Z) (xs ws : list bigZ),
+  (0 <=? E)%Z = true -> (0 <=? F)%Z = true -> (0 <? ed)%Z = true ->
+  cert_check_big E F d en ed xs ws = true -> range_check_big E xs ws = true ->
+  forall (a b k : R) (amp : C), k <> 0 -> a <> b ->
+  let ku := k * tr_u a b in
+  Cmod (Cminus (apply_rule Rops (gq_transfer Rops (big_rule E F xs ws) a b) (fun x => Cmult amp (expi k x))) (Cmult amp (expi_int k a b)))
+    <= Cmod amp * Rabs (tr_u a b) *
+       (IZR en / IZR ed * expsum (Rabs ku) d + (4 + IZR en / IZR ed) * (Rabs ku ^ S d / INR (fact (S d)))).
+Proof. exact certified_rule_expi_exact. Qed.
 
 (* ---- adaptive Simpson *)
 Theorem C12_adaptive_cubic_exact : forall (cs : list C) (a b eps : R) d, a <= b -> (length cs <= 4)%nat ->
@@ -245,6 +338,38 @@ Theorem C12_adaptive_2d_reverse : forall (f : R -> R -> C) (ax bx ay by_ eps : R
   simpson_adaptive_2d Rops f ax bx by_ ay eps d = Copp (simpson_adaptive_2d Rops f ax bx ay by_ eps d).
 Proof. exact simpson_adaptive_2d_reverse. Qed.
 
+(* ---- the first level of the adaptive recursion (mechanism and exact witness class of known finding F5e).
+   With the recursion not stopped, the first level accepts iff |left + right - whole| <= 15 eps; then the Richardson value is
+   returned after exactly 5 integrand calls; otherwise (depth >= 2, left half not stopped) at least 7 calls are made. *)
+Theorem C12_adaptive_first_level : forall (f : R -> C) (a b eps : R) d, stop eps a b = false ->
+  (accept f a b eps = true <-> Cmod (delta f a b) <= 15 * eps) /\
+  (accept f a b eps = true ->
+     simpson_adaptive Rops f a b eps (S d) = richardson f a b /\
+     simpson_adaptive_calls Rops f ones1 a b eps (S d) = 5%nat) /\
+  (accept f a b eps = false -> stop (eps / 2) a ((a + b) / 2) = false ->
+     (7 <= simpson_adaptive_calls Rops f ones1 a b eps (S (S d)))%nat).
+Proof. exact first_level. Qed.
+
+(* any integrand whose five first-level samples coincide is accepted at once, for every eps > 0: result (b - a) f(a) *)
+Theorem C12_adaptive_aliased_first_level : forall (f : R -> C) (a b eps : R) (v : C) d,
+  a <= b -> 0 < eps -> stop eps a b = false -> samples_equal f a b v ->
+  simpson_adaptive Rops f a b eps (S d) = vscale Rops (b - a) v /\
+  simpson_adaptive_calls Rops f ones1 a b eps (S d) = 5%nat.
+Proof. exact aliased_first_level. Qed.
+
+(* for amp exp(ikx), amp <> 0, the five samples coincide exactly when k (b - a) / 4 is a multiple of 2 pi ... *)
+Theorem C12_adaptive_alias_family : forall (amp : C) (k a b : R), amp <> (0, 0) ->
+  (samples_equal (cexpi amp k) a b (cexpi amp k a) <-> exists j : Z, k * (b - a) / 4 = 2 * PI * IZR j).
+Proof. exact alias_family. Qed.
+
+(* ... and then the method returns (b - a) amp exp(ika) after 5 calls whatever the tolerance, while the integral is 0 *)
+Theorem C12_adaptive_alias_family_result : forall (amp : C) (k a b eps : R) (j : Z) d,
+  a <= b -> 0 < eps -> stop eps a b = false -> k * (b - a) / 4 = 2 * PI * IZR j ->
+  simpson_adaptive Rops (cexpi amp k) a b eps (S d) = vscale Rops (b - a) (cexpi amp k a) /\
+  simpson_adaptive_calls Rops (cexpi amp k) ones1 a b eps (S d) = 5%nat /\
+  (k <> 0 -> Cmult amp (expi_int k a b) = (0, 0)).
+Proof. exact alias_family_result. Qed.
+
 (* ---- accepted parameters: every divs >= 4 (in particular the property's range 4..400) is accepted by both forms, and
    whatever the 1-D form accepts the 2-D form accepts — for ALL divs, no parity hypothesis *)
 Theorem C12_accept_from4 : forall d, (4 <= d)%Z -> simpson_accepts d = true /\ simpson2d_accepts d = true.
@@ -272,6 +397,9 @@ Proof. exact cert_example_moments. Qed.
 Example C12_ex_accept_step : accept (fun _ => (0, 0)) 0 1 1 = true.
 Proof. exact accept_zero_example. Qed.
 
+Example C12_ex_not_stopped : stop 1 0 1 = false.
+Proof. exact stop_example. Qed.
+
 Print Assumptions C12_poly_integral.
 Print Assumptions C12_simpson_is_rule.
 Print Assumptions C12_simpson_rule_exact.
@@ -279,6 +407,8 @@ Print Assumptions C12_simpson_exact.
 Print Assumptions C12_simpson_reverse.
 Print Assumptions C12_simpson_linear.
 Print Assumptions C12_simpson_calls.
+Print Assumptions C12_simpson_binary64.
+Print Assumptions C12_float_constants.
 Print Assumptions C12_simpson_expi_bound.
 Print Assumptions C12_expi_integral.
 Print Assumptions C12_simpson2d_is_tensor.
@@ -297,10 +427,18 @@ Print Assumptions C12_rule_certificate_transfer.
 Print Assumptions C12_transfer_scale.
 Print Assumptions C12_rule_certificate_reverse.
 Print Assumptions C12_certified_rule_exact.
+Print Assumptions C12_gl_adapter_is_rule.
+Print Assumptions C12_gl_adapter_2d_is_rule.
+Print Assumptions C12_cc_gk_adapters.
 Print Assumptions C12_gl_adapter_exact.
 Print Assumptions C12_gl_adapter_linear.
 Print Assumptions C12_gl_adapter_2d_separable.
 Print Assumptions C12_gl_adapter_2d_exact.
+Print Assumptions C12_taylor_remainder.
+Print Assumptions C12_certified_rule_expi.
+Print Assumptions C12_certified_rule_expi_transfer.
+Print Assumptions C12_certified_rule_expi_exact.
+Print Assumptions C12_simpson2d_expi_bound.
 Print Assumptions C12_adaptive_cubic_exact.
 Print Assumptions C12_adaptive_2d_bicubic_exact.
 Print Assumptions C12_adaptive_richardson_quintic.
@@ -311,6 +449,10 @@ Print Assumptions C12_adaptive_2d_terminates.
 Print Assumptions C12_adaptive_cubic_calls.
 Print Assumptions C12_adaptive_reverse.
 Print Assumptions C12_adaptive_2d_reverse.
+Print Assumptions C12_adaptive_first_level.
+Print Assumptions C12_adaptive_aliased_first_level.
+Print Assumptions C12_adaptive_alias_family.
+Print Assumptions C12_adaptive_alias_family_result.
 Print Assumptions C12_accept_from4.
 Print Assumptions C12_accept_1d_2d.
 Print Assumptions C12_accept_norm.
